@@ -53,6 +53,11 @@ def cond_uneven(**k):
               cond={"C": {"a": 0.5, "b": 0.5}}, terminal=["J"], **k)]
 
 
+def cond_nojoin(**k):
+    # a conditional whose branches never re-join: each branch ends in its own sink
+    return [G("G0", ["C", "a", "a2", "b", "b2"], [("C", "a"), ("a", "a2"), ("C", "b"), ("b", "b2")], cond={"C": {"a": 0.5, "b": 0.5}}, **k)]
+
+
 def cond_tail(**k):
     # conditional followed by work after the join
     return [G("G0", ["C", "a", "b", "J", "Z"], [("C", "a"), ("C", "b"), ("a", "J"), ("b", "J"), ("J", "Z")],
